@@ -881,6 +881,59 @@ def refute_tower(binp):
     return None
 
 
+
+# ---- prime fields through the public API with method-call syntax (C08 stand-in) -------------------------------------------------
+def refute_prime_field(binp):
+    """Fq / Fr and their representation types driven as the crate's callers write it (`a.pow(e)`, `r.is_zero()`): this is what observes
+    an inherent method shadowing a contracted trait method, which a contract on the trait method cannot see"""
+    RR = 0x73eda753299d7d483339d80809a1d80553bda402fffe5bfeffffffff00000001
+    rnd = random.Random(11)
+    for field, M, n in (('fq', Q, 6), ('fr', RR, 4)):
+        W = 1 << (64 * n)
+        Rm = W % M
+        inv64 = [pow(pow(2, 64 * k, M), -1, M) for k in range(1, n + 1)]
+        vals = [0, 1, 2, M - 1, M - 2, M, M + 1, W - 1, 1 << (64 * (n - 1)), (1 << (64 * (n - 1))) - 1, 1 << 64, (1 << 64) - 1, 1 << 63,
+                Rm, (M - Rm) % M, inv64[0], inv64[-1], inv64[n - 2], (M + 1) // 2, rnd.randrange(M), rnd.randrange(M), rnd.randrange(W)]
+        # elements whose MONTGOMERY form has a single non-zero limb (value = 2^(64 k) * R^-1): blind spots of limb-wise slips
+        rinv = pow(W, -1, M)
+        vals += [((1 << (64 * k)) * rinv) % M for k in range(n)] + [((5 << (64 * (n - 1))) * rinv) % M]
+        exps = [[], [0], [1], [2], [0xffffffffffffffff], [0, 1], [3, 0, 0, 0], [M & 0xffffffffffffffff] + [(M >> (64 * k)) & 0xffffffffffffffff for k in range(1, n)],
+                [0, 0, 0, 0, 1], [5, 0, 0, 0, 0, 0, 7], [0] * n + [1], [1] * 12, [0] * 11 + [1 << 63], [rnd.getrandbits(64) for _ in range(9)], [0, 0, 0, 0, 0, 0, 0]]
+        for ia, a in enumerate(vals):
+            for b in (vals[(ia * 7 + 3) % len(vals)], a, (a + 1) % W):
+                e = exps[(ia + b) % len(exps)]
+                kv = {'field': field, 'a': hex(a), 'b': hex(b), 'exp': ','.join(hex(x) for x in e)}
+                out, cmd = run_bin(binp, 'prime_field_api', kv)
+                if 'error' in out:
+                    continue
+                tag = out.get('tag', '').split('|')
+                o = out.get('out', [])
+                cmpv = lambda x, y: 'Equal' if x == y else ('Greater' if x > y else 'Less')
+                exp_tag = [str(a == 0).lower(), str(a % 2 == 1).lower(), str(a.bit_length()), cmpv(a, b), str(a == b).lower(), str(a < b).lower()]
+                F = 'Fq' if field == 'fq' else 'Fr'
+                if tag[:6] != exp_tag:
+                    return dict(function=f'{F}Repr::{{is_zero,is_odd,num_bits,cmp,eq,lt}}', input=kv, actual='|'.join(tag[:6]), expected='|'.join(exp_tag), command=cmd)
+                exp_r = [a >> 1, a >> 67, (a << 1) % W, (a << 67) % W]
+                got_r = [int(x, 16) for x in o[:4]]
+                if got_r != exp_r:
+                    return dict(function=f'{F}Repr::{{div2,shr,mul2,shl}}', input=kv, actual=str([hex(x) for x in got_r]), expected=str([hex(x) for x in exp_r]), command=cmd)
+                if a < M and b < M:
+                    ev = sum(x << (64 * i) for i, x in enumerate(e))
+                    exp_f = [(a + b) % M, (a - b) % M, (a * b) % M, (a * a) % M, (-a) % M, (2 * a) % M, None if a == 0 else pow(a, -1, M), pow(a, ev, M), pow(a, ev, M)]
+                    got_f = [None if x == 'none' else int(x, 16) for x in o[4:]]
+                    exp_t = ['ok', str(a == 0).lower(), cmpv(a, b), str(a == b).lower()]
+                    if tag[6:] != exp_t:
+                        return dict(function=f'{F}::{{from_repr,is_zero,cmp,eq}}', input=kv, actual='|'.join(tag[6:]), expected='|'.join(exp_t), command=cmd)
+                    if got_f != exp_f:
+                        names = ['add_assign', 'sub_assign', 'mul_assign', 'square', 'negate', 'double', 'inverse', 'pow_ref_slice', 'pow_vec']
+                        k = [i for i in range(len(exp_f)) if i >= len(got_f) or got_f[i] != exp_f[i]][0]
+                        return dict(function=f'{F}::{names[k]}', input=kv, actual=str(got_f[k] if k < len(got_f) else None), expected=str(exp_f[k]), command=cmd)
+                else:
+                    exp_t = ['err', str(a < M).lower(), str(b < M).lower()]
+                    if tag[6:] != exp_t:
+                        return dict(function=f'{F}::from_repr', input=kv, actual='|'.join(tag[6:]), expected='|'.join(exp_t), command=cmd)
+    return None
+
 # ---- stand-ins: functions that no contract reaches are driven on structured inputs against the independent reference on EVERY run.
 # They are tests, not proofs: reported separately in the evidence (coverage.stand_ins), never counted as obligations.
 STANDINS = {
@@ -898,6 +951,9 @@ STANDINS = {
     'pairing_products': (refute_pairings, "(cross-check: miller_loop is under contract in unit miller) final_exponentiation(miller_loop(list)), pairing_product, pairing_multi_product and a second evaluation with the same prepared elements "
                          "against the product (real Fq12 multiplication) of the single pairings; miller_loop(list) against the product of the single-pair loops; lists of 0..5 pairs with identities first / in the middle / last, repeated pairs, "
                          "and cancelling combinations (e(P,Q)e(-P,Q), e(aP,bQ)e(-abP,Q), three-term sums) that must give exactly 1"),
+    'prime_field_api': (refute_prime_field, "(cross-check: the field and representation operations are under contract in units mont / kani:limbs) Fq, Fr, FqRepr, FrRepr through method-call syntax on the concrete types - "
+                        "what a contract on the trait method cannot see is an inherent method of the same name taking over the call sites: is_zero / is_odd / num_bits / cmp / div2 / shr / mul2 / shl, from_repr, add / sub / mul / square / negate / double / inverse, "
+                        "pow with exponents of 0..12 limbs; values 0, 1, M-1, M, M+1, 2^(64k), single-limb Montgomery forms, random"),
     'encoders_api': (lambda binp: refute_encode(binp), "into_compressed / into_uncompressed through the public API on random points, both roots, small x, y in Fq / purely imaginary, the identity, with non-trivial Z"),
 }
 
